@@ -109,6 +109,9 @@ def do_access(ds, n, acc):
         return [(i, ds[i])]
     if kind == 'neg':
         return [(i, ds[i - n])]
+    if kind == 'npindex':
+        import numpy as _np
+        return [(i, ds[_np.int64(i)])]
     if kind == 'key':
         return [(i, ds['k%d' % i])]
     if kind == 'iter':
@@ -129,7 +132,7 @@ def do_access(ds, n, acc):
 
 
 def gen_access(rng, n, kind):
-    k = rng.choice(['index', 'index', 'neg', 'iter', 'slice', 'copy', 'iter_k'] +
+    k = rng.choice(['index', 'index', 'neg', 'npindex', 'iter', 'slice', 'copy', 'iter_k'] +
                    (['key'] if kind == 'dict' else []))
     return [k, rng.randrange(n + 1) if k == 'iter_k' else rng.randrange(n)]
 
